@@ -209,6 +209,23 @@ def check(ctx):
                 r3.ok("%s: %s over %s — %s" % (short_path(site.fn.id), site.call.name, site.source, site.why))
             else:
                 r3.bad(V(r3.id, site.fn.id, "order-leak:" + site.ident(), "%s iterates %s in hash order: %s" % (short_path(site.fn.id), site.source, site.why), site.call.file, site.call.line))
+        # the same discipline through a generic helper (`for dep in sorted_names(deps)`): new private helpers are spliced into their callers, and a
+        # generic one keeps its type parameters there, so the type-driven site enumeration above does not see what it iterates.  Such a helper
+        # that builds a vector must sort it itself (then the hash order ends inside it); one that does not is reported
+        for g_ in (v, s_):
+            for hid in sorted({b_.get("inl") for b_ in g_.d.get("blocks", []) if b_.get("inl")}):
+                hf = P.fns.get(hid)
+                if hf is None or not re.search(r"Vec<", hf.locals[0] if hf.locals else ""):
+                    continue
+                generic = any(re.search(r"\b[A-Z]\b|impl |::Item", t_) for t_ in hf.locals[1:hf.arg_count + 1])
+                if not generic:
+                    continue
+                sorts = any((cc.name or "").startswith("sort") or "BTree" in cc.path for k2 in P.family(hid) if "{promoted" not in k2 for cc in P.fns[k2].calls if cc.bb in P.fns[k2].reach_blocks)
+                if sorts:
+                    r3.ok("%s: the generic helper %s returns the names it was handed sorted" % (short_path(g_.id), short_path(hid)))
+                else:
+                    r3.bad(V(r3.id, g_.id, "order-leak:generic-helper:%s" % short_path(hid), "%s collects what it is handed into a vector without sorting it: when it is handed a "
+                             "hash-based collection the visiting order is the hash order" % short_path(hid)))
     r3.require_floor(2, "ordering facts")
     rules.append(r3)
 
